@@ -2,6 +2,7 @@ import Qryn.LogQL.Process
 import Qryn.Proofs.LogQLPlan
 import Qryn.Gen.PlannerGlobals
 import Qryn.Gen.PlannerSelfWrites
+import Qryn.Proofs.ProcessTraceQL
 /-! # C14 — query translation is deterministic and a prepared plan can be re-executed -/
 namespace Qryn.C14
 open Qryn Qryn.Sql Qryn.LogQL
@@ -124,4 +125,84 @@ theorem planner_self_writes_pinned :
        "reader/traceql/transpiler/clickhouse_transpiler.AttrConditionPlanner.maybeCreateWhere:sqlConds",
        "reader/traceql/transpiler/clickhouse_transpiler.AttrConditionPlanner.maybeCreateWhere:where"] ∧
     40 ≤ Qryn.Gen.plannerProcessTypes := by decide
+end Qryn.C14
+
+/-! ## TraceQL: the planner objects' own fields as state (`TraceQL/Process.lean`) -/
+namespace Qryn.C14
+open Qryn.TraceQL
+
+/-- **attr_condition_state_independent.** One `AttrConditionPlanner.Process`, for EVERY context — also the contexts
+    of the portions of a complex search (`RandomFilter`, `CachedTraceIds`: the three return paths) — and for every
+    value of the fields `sqlConds`, `where`, `alias` an earlier `Process` (or anything else) left in the object:
+    the result is the pure translation `attrCondition` of C11. The one field that is read before it is assigned,
+    `isAliased`, must be `false` at entry — `attr_condition_resets_flag` shows every path re-establishes that. -/
+theorem attr_condition_state_independent (st : AttrState) (h : st.isAliased = false) (c : TraceQL.Ctx)
+    (terms : List Term) (cond : Cond) (aggAttr : String) :
+    (processAttr st c terms cond aggAttr).2 = attrCondition c terms cond aggAttr :=
+  processAttr_out st h c terms cond aggAttr
+
+/-- every way out of `AttrConditionPlanner.Process` (error in a term; no portion; portion filter; portion filter and
+    cached trace ids) leaves `isAliased = false` -/
+theorem attr_condition_resets_flag (st : AttrState) (h : st.isAliased = false) (c : TraceQL.Ctx)
+    (terms : List Term) (cond : Cond) (aggAttr : String) :
+    (processAttr st c terms cond aggAttr).1.isAliased = false :=
+  processAttr_clean st h c terms cond aggAttr
+
+/-- on the paths that return a statement the flag is reset whatever it was -/
+theorem attr_tail_resets (st : AttrState) (c : TraceQL.Ctx) (res : Sql.Sel) :
+    (attrTail st c res).1.isAliased = false := by rw [attrTail_state]
+
+/-- the three tails are really taken: a context for each -/
+example : portionOf ⟨0, 1, 0, 0, false, "a", "b", "c", "d", 0, 0, []⟩ = .none := by decide
+example : portionOf ⟨0, 1, 0, 0, false, "a", "b", "c", "d", 3, 1, []⟩ = .filter := by decide
+example : portionOf ⟨0, 1, 0, 0, false, "a", "b", "c", "d", 3, 2, ["00"]⟩ = .filterAndCached := by decide
+
+/-- `AggregatorPlanner.Process` never reads the `fCmpVal` an earlier `Process` left -/
+theorem aggregator_state_independent (st : AggState) (pfx : String) (a : Agg) (main : Sql.Sel) :
+    (processAgg st pfx a main).2 = aggregator pfx a main := processAgg_out st pfx a main
+
+/-- **process_stable_traceql.** A prepared TraceQL plan (any tree of `&&`/`||` selectors with aggregators) in a clean
+    state, processed any number of times with any contexts (complex searches: once per portion, each with its own
+    random filter and the trace ids found so far): every result — statement or error — is the pure reading of the
+    plan for ITS context; the objects' fields carry nothing over. -/
+theorem process_stable_traceql (p : PTree) (hp : p.clean) (cs : List TraceQL.Ctx) :
+    runsT p cs = cs.map (fun c => finishPlan c (pureTree c p.shape)) := runsT_eq p hp cs
+
+/-- … and for the plan object `Plan(script)` returns this is `TraceQL.plan` of C11 (`plan_correct` etc. are about it) -/
+theorem process_stable_traceql_plan (script : Script) (p : PTree) (h : prepare script = .ok p) (cs : List TraceQL.Ctx) :
+    runsT p cs = cs.map (fun c => plan c script) := by
+  rw [runsT_eq p (prepare_spec script p h ⟨0, 0, 0, 0, false, "", "", "", "", 0, 0, []⟩).1 cs]
+  apply List.map_congr_left
+  intro c _
+  obtain ⟨_, hs, hpl⟩ := prepare_spec script p h c
+  rw [hs, hpl]
+
+/-- `Process` modifies nothing of the plan but the inventoried fields, and keeps the invariant -/
+theorem traceql_process_invariant (p : PTree) (hp : p.clean) (c : TraceQL.Ctx) :
+    (processPlan p c).1.clean ∧ (processPlan p c).1.shape = p.shape :=
+  ⟨processTree_clean c p hp, processTree_shape c p⟩
+
+/-- what a flag left set does (the state a lost reset produces): the first condition refers to the alias `bsCond`
+    instead of defining it — the statement has no definition of `bsCond` at all -/
+theorem stale_flag_drops_definition (ts : List Sql.Expr) (a : String) (i : Nat) :
+    (condSqlA ts a true (.leaf i)).1 = Sql.neq (.callT "bitAnd" [.raw a, .int (shl1 i)]) (.int 0) ∧
+    (condSqlA ts a false (.leaf i)).1 = Sql.neq (.callT "bitAnd" [.bitSet ts a, .int (shl1 i)]) (.int 0) ∧
+    (condSqlA ts a true (.leaf i)).1 ≠ (condSqlA ts a false (.leaf i)).1 := by
+  refine ⟨rfl, rfl, ?_⟩
+  intro h
+  simp [condSqlA, Sql.neq] at h
+
+/-- what the code did before the `fix:` of `maybeCreateWhere`: a `Process` that failed on the second term left the
+    first one in the planner; the next `Process` of the same plan found the memo non-empty and returned a statement
+    (built from one term, testing bit 1 of a one-bit set) where the first execution — and a fresh translation —
+    return the error -/
+theorem stale_terms_after_error :
+    ∃ (terms : List Term) (cond : Cond) (c : TraceQL.Ctx),
+      (runsAttrOld {} terms cond "" [c, c]).map Except.isOk = [false, true] ∧
+      (attrCondition c terms cond "").isOk = false ∧
+      ((runsT (.simple [(⟨some (.leafOp ⟨".a", .eq, .str [34, 98, 34] (some [98])⟩ .and (.leaf ⟨"foo", .eq, .str [34, 120, 34] (some [120])⟩)), none⟩, .none)] "" {} {}) [c, c]).map
+        Except.isOk = [false, false]) := by
+  refine ⟨[⟨".a", .eq, .str [34, 98, 34] (some [98])⟩, ⟨"foo", .eq, .str [34, 120, 34] (some [120])⟩],
+    .node .and (.leaf 0) (.leaf 1), ⟨0, 1, 0, 0, false, "a", "b", "c", "d", 0, 0, []⟩, ?_, ?_, ?_⟩ <;> decide +kernel
+
 end Qryn.C14
